@@ -350,6 +350,7 @@ def seismic_file_producer(queue, seismicfile, blockshape, store_headers,
                 pass
             else:
                 warnings.warn("MinimalInlineReader failed self-test, using fallback", UserWarning)
+                minimal_il_reader = None
 
     # Loop over groups of 4 inlines
     n_plane_sets = padded_shape[0] // blockshape[0]
